@@ -25,7 +25,7 @@ import click
 from binaryornot.check import is_binary
 from boolean.boolean import Expression
 from jinja2 import Environment, FileSystemLoader, Template
-from jinja2.exceptions import TemplateNotFound
+from jinja2.exceptions import TemplateError, TemplateNotFound
 
 from .. import ReuseInfo
 from .._annotate import add_header_to_file
@@ -209,6 +209,13 @@ def get_template(
             raise click.UsageError(
                 _("Template '{template}' could not be found.").format(
                     template=template_str
+                )
+            ) from error
+        except (TemplateError, OSError, ValueError, RecursionError) as error:
+            # The template does not compile, or is not UTF-8 text.
+            raise click.UsageError(
+                _("Template '{template}' could not be loaded: {error}").format(
+                    template=template_str, error=error
                 )
             ) from error
 
